@@ -194,6 +194,12 @@ def gen_random(rng):
         if rng.random() < 0.1:
             spec["body"]["cell_vertical_justification"] = rng.choice(["top", "center", "bottom", "merge_first",
                                                                       "merge_rest", ""])
+        b = spec["body"]
+        if b.get("subline_by") and not b.get("page_by") and rng.random() < 0.3:
+            # the same column(s) in two roles
+            b["page_by"] = list(b["subline_by"])
+        elif b.get("page_by") and not b.get("group_by") and rng.random() < 0.1:
+            b["group_by"] = list(b["page_by"][:1])
         if rng.random() < 0.3:
             sprinkle_unicode(rng, spec)
         if rng.random() < 0.1:
